@@ -69,6 +69,13 @@ def run(check: Check):
                  and facts.delta.startswith('shared - state['),
                  f'start={facts.start}, optimizer state {facts.opt_state_variant}, delta={facts.delta}')
     roundcheck.check_server_update(check, repo, alg, inv, 'R-SIB')
+  # the number of local steps (client batch stream) and the padding-step selection of the parallel backend are part of the
+  # round's definition: shared rules with C04 / C02
+  from fjsa.props import c02, c04
+  check.rule('R-SIZE', 'local step count of the client batch stream (shared with C04)')
+  check.rule('R-MASK', 'parallel backend: padded steps / clients never change a real client\'s state or output (shared with C02)')
+  c04._num_steps(check)
+  c02._pmap(check)
   # zero guard of the normaliser (R-DIV) in tree_util
   da = DivAnalysis(repo)
   for q in ('tree_inverse_weight',):
